@@ -200,7 +200,7 @@ def _sched(shard):
 # ---------------------------------------------------------------------------
 CONF_SCRIPT = r"""
 import json, sys, os
-sys.path.insert(0, '/verif')
+sys.path.insert(0, os.environ.get('VERIF_ROOT', '/verif'))
 import numpy as np, numba
 from speckit import core
 from mc import records
@@ -261,8 +261,8 @@ def _conf(shard):
 
 
 CONF_ANA = r"""
-import json, sys
-sys.path.insert(0, '/verif')
+import json, sys, os
+sys.path.insert(0, os.environ.get('VERIF_ROOT', '/verif'))
 import numpy as np, numba, logging
 logging.disable(logging.CRITICAL)
 from mc import records
